@@ -265,6 +265,51 @@ def bloch_redfield(rng, tier, rep):
                         break
             elif np.abs(R - base).max() > 1e-7 * (1 + np.abs(base).max()):
                 viol.append((f"br-route:{meth}:{'fock' if fock else 'eigen'}", f"bloch_redfield_tensor method={meth} fock_basis={fock} disagrees with the sparse/fock route (N={N})"))
+        # several baths, every kind of spectrum (function, coefficient in w, bosonic and fermionic environment objects):
+        # the tensor is additive in the baths, independent of their order, and the two output bases agree
+        try:
+            from qutip.core.environment import DrudeLorentzEnvironment, LorentzianEnvironment
+            b_op = qutip.rand_herm(N, seed=int(rng.integers(1 << 30)), density=1.0)
+            c_op = qutip.rand_herm(N, seed=int(rng.integers(1 << 30)), density=1.0)
+            kinds = {"function": spec, "string": "0.2 * (w > 0) * w + 0.1",
+                     "bosonic-environment": DrudeLorentzEnvironment(T=0.8, lam=0.1, gamma=1.2),
+                     "fermionic-environment": LorentzianEnvironment(T=0.6, mu=0.2, gamma=0.15, W=1.1),
+                     "fermionic-environment-2": LorentzianEnvironment(T=1.3, mu=-0.1, gamma=0.3, W=0.7)}
+            names = list(kinds)
+            pick = [names[int(i)] for i in rng.choice(len(names), size=3, replace=False)]
+            if "fermionic-environment" not in pick:
+                pick[0] = "fermionic-environment"
+            baths = list(zip((a, b_op, c_op), [kinds[k] for k in pick]))
+
+            def tensor_of(a_ops, fock):
+                out = qutip.bloch_redfield_tensor(H, [list(x) for x in a_ops], fock_basis=fock, sec_cutoff=-1)
+                if fock:
+                    return out.full()
+                Rm, ek = out
+                U = ek.full() if isinstance(ek, qutip.Qobj) else np.hstack([k.full() for k in ek])
+                S = np.kron(U.conj(), U)
+                return S @ Rm.full() @ S.conj().T
+            R0 = tensor_of([], True) if False else qutip.liouvillian(H).full()
+            for fock in (True, False):
+                singles = [tensor_of([bth], fock) for bth in baths]
+                allb = tensor_of(baths, fock)
+                rev = tensor_of(list(reversed(baths)), fock)
+                rep.evaluations += 1
+                rep.count("bloch-redfield-baths")
+                want = sum(singles) - (len(baths) - 1) * R0
+                sc_ = 1 + np.abs(want).max()
+                if np.abs(allb - want).max() > 1e-7 * sc_:
+                    viol.append((f"br-baths-additive:{'fock' if fock else 'eigen'}", f"Bloch-Redfield tensor with baths {pick} (fock_basis={fock}) is not the sum of the single-bath tensors (off by {np.abs(allb - want).max():.2e})"))
+                if np.abs(allb - rev).max() > 1e-7 * sc_:
+                    viol.append((f"br-baths-order:{'fock' if fock else 'eigen'}", f"Bloch-Redfield tensor with baths {pick} (fock_basis={fock}) depends on the order of a_ops"))
+                if fock:
+                    allb_f = allb
+                elif np.abs(allb - allb_f).max() > 1e-7 * sc_:
+                    viol.append(("br-baths-bases", f"Bloch-Redfield tensor with baths {pick}: the two output bases disagree by {np.abs(allb - allb_f).max():.2e}"))
+        except core.CaseTimeout:
+            raise
+        except Exception as e:
+            viol.append(("br-baths-raises", f"{type(e).__name__}: {e}"[:200]))
         # time-dependent Hamiltonian whose eigenvectors move: R(t) must equal the tensor of the constant H(t)
         H1 = qutip.rand_herm(N, seed=int(rng.integers(1 << 30)))
         Ht = qutip.QobjEvo([H, [H1, lambda t: np.sin(t)]])
